@@ -83,6 +83,11 @@ func checkLaws(baseStr, ref string) {
 		verifCheckSameResult(r2, e2, r3, e3, "Parser.ParseRef and (*Url).Parse disagree")
 	}
 	vnd.Cover("resolved", e3 == nil)
+	verifCheckLawsOn(b, r3, e3, ref, false)
+}
+
+// verifCheckLawsOn: laws (c)-(f) for one resolution r3 = b.Parse(ref), whatever parser b came from.
+func verifCheckLawsOn(b *Url, r3 *Url, e3 error, ref string, failMode bool) {
 	c := cleaned(ref)
 	opaqueBase := b.OpaquePath()
 	if opaqueBase {
@@ -92,7 +97,8 @@ func checkLaws(baseStr, ref string) {
 		if rel && !startsHash && e3 == nil {
 			vnd.Fail("a base with an opaque path accepted a relative reference that is not '#...'")
 		}
-		if rel && startsHash && e3 != nil {
+		// (under fail-on-validation-error any validation error in the fragment is a rejection)
+		if rel && startsHash && e3 != nil && !failMode {
 			vnd.Fail("a base with an opaque path rejected a '#...' reference")
 		}
 	}
@@ -135,7 +141,7 @@ func checkLaws(baseStr, ref string) {
 }
 
 // optionBases: bases on which parser options make a difference.
-var optionBases = []string{"http://h//a//b/", "https://h", "gopher://h:70/a\\b", "file:///C|/d", "http://h/%zz?%", "http://h/p?a&b="}
+var optionBases = []string{"http://h//a//b/", "https://h", "gopher://h:70/a\\b", "file:///C|/d", "http://h/%zz?%", "http://h/p?a&b=", "http://u:p@h:8", "ws://h?q#f"}
 
 // VerifC06LawsConfigured: for a configured parser, Parser.ParseRef(base, ref) agrees with
 // Parser.Parse(base) followed by (*Url).Parse(ref).
@@ -167,6 +173,9 @@ func VerifC06LawsConfigured() {
 	}
 	r2, e2 := b.Parse(ref)
 	verifCheckSameResult(r1, e1, r2, e2, "Parser.ParseRef and Parser.Parse + (*Url).Parse disagree for a configured parser")
+	// the laws hold for every configuration: the base was normalised by the same parser
+	vnd.Cover("configured-laws", e2 == nil)
+	verifCheckLawsOn(b, r2, e2, ref, p.opts.failOnValidationError)
 }
 
 // selfBases: the base shapes, the four most different first.
